@@ -103,6 +103,7 @@ func (e *Eng) obligations() {
 	// ---- C15: state carried by a reused parser object
 	e.reuseObligations()
 	e.serializerReuse()
+	e.initializeResets()
 	// ---- C18: the private Ryu copy is the standard library's
 	e.congruence(e.repo)
 	_ = C20
